@@ -186,12 +186,9 @@ theorem process_echoes (fixed : Bool) (cfg : Cfg) (s : Srv) (f : Frame) (r : Rep
     subst h
     exact echo_echoes _ _ _ (by simp [Frame.isRegister, hb])
   | sendItems u i t items =>
-    simp only [hb] at h
-    split at h
-    · simp only [refuse, Outcome.reply.injEq] at h
-      subst h
-      exact echo_echoes _ _ _ (by simp [Frame.isRegister, hb])
-    · simp at h
+    simp only [hb, refuse, Outcome.reply.injEq] at h
+    subst h
+    exact echo_echoes _ _ _ (by simp [Frame.isRegister, hb])
   | send u i t w c =>
     have hr : f.isRegister = false := by simp [Frame.isRegister, hb]
     simp only [hb] at h
